@@ -423,11 +423,14 @@ def _cubic_ext(p0, c1, c2, p1):
             yield u * u * u * p0 + 3 * u * u * t * c1 + 3 * u * t * t * c2 + t * t * t * p1
 
 
-def tight_bbox(cmds):
-    """(xmin, ymin, xmax, ymax) from analytic extrema, or None if there are no points."""
+def tight_bbox(cmds, only_drawn=False):
+    """(xmin, ymin, xmax, ymax) from analytic extrema, or None if there are no points.
+    only_drawn: subpaths that consist of a bare moveto do not contribute."""
     subs = interpret(cmds)
     xs, ys = [], []
     for sp in subs:
+        if only_drawn and not sp.segs:
+            continue
         xs.append(sp.start[0])
         ys.append(sp.start[1])
         for s in sp.segs:
